@@ -100,6 +100,18 @@ func c10Ops() []c10Op {
 			ops = append(ops, c10Op{name: "Multiply", elem: true, i: i, j: i, k: k})
 		}
 
+		// the receiver is first reset to the Go zero value of the struct (0:0:0 - not a group element, but what
+		// `var e Element` is) and then overwritten by a call that does not read it
+		for _, n := range []string{"zero;Identity", "zero;Base", "zero;Multiply(nil)", "zero;Decode(00)"} {
+			ops = append(ops, c10Op{name: n, elem: true, i: i, j: i})
+		}
+
+		for j := 0; j < c10E; j++ {
+			if j != i {
+				ops = append(ops, c10Op{name: "zero;Set", elem: true, i: i, j: j}, c10Op{name: "zero;Decode(Encode)", elem: true, i: i, j: j})
+			}
+		}
+
 		for k := range c10BadElem() {
 			ops = append(ops, c10Op{name: "Decode(invalid)", elem: true, i: i, j: i, k: k})
 		}
@@ -260,6 +272,30 @@ func c10Apply(st c10State, m c10Model, o c10Op) (ns c10State, nm c10Model, key, 
 			case "Base":
 				r.Base()
 				nm.e[o.i] = ref.G()
+			case "zero;Identity":
+				*r = secp256k1.Element{}
+				r.Identity()
+				nm.e[o.i] = ref.Infinity()
+			case "zero;Base":
+				*r = secp256k1.Element{}
+				r.Base()
+				nm.e[o.i] = ref.G()
+			case "zero;Multiply(nil)":
+				*r = secp256k1.Element{}
+				r.Multiply(nil)
+				nm.e[o.i] = ref.Infinity()
+			case "zero;Decode(00)":
+				*r = secp256k1.Element{}
+				err = r.Decode([]byte{0})
+				nm.e[o.i] = ref.Infinity()
+			case "zero;Set":
+				*r = secp256k1.Element{}
+				r.Set(a)
+				nm.e[o.i] = m.e[o.j]
+			case "zero;Decode(Encode)":
+				*r = secp256k1.Element{}
+				err = r.Decode(a.Encode())
+				nm.e[o.i] = m.e[o.j]
 			case "Add(nil)":
 				r.Add(nil)
 			case "Subtract(nil)":
